@@ -10,8 +10,22 @@
 //   preprocess sweep L P full|digest c,c,c,...   the same over the given alphabet (decimal
 //                                   scalar values, K symbols, prefix digits in base K)
 //
+//   preprocess ast                  stdin lines as above -> "<input> = <answer of the parse entry point>":
+//                                   `parser::verif::parse_source` (= parser_logic::parse_file) is run on
+//                                   the text with file id 0 and the WHOLE answer is printed: "ast <sexp>"
+//                                   (version, custom-gate flags, includes, every definition with name,
+//                                   arguments, argument location and body, main component; every Meta with
+//                                   start, end, location, file id; every constructor and field matched
+//                                   explicitly) | "error <sexp of the report: level, id, message, primary
+//                                   and secondary labels with ranges, notes>" | "panic".  Used by C05 to
+//                                   observe that sources with the same comment-lexer image are
+//                                   indistinguishable behind the entry point.
+//
 // result: "ok c c c" (scalars of the output text) | "err <start> <end>" (byte
 // range of the primary label of the report) | "panic".
+use program_structure::ast::*;
+use program_structure::report::Report;
+use std::fmt::Write as _;
 use std::io::Write;
 
 pub const ALPHABET: [char; 6] = ['/', '*', '\n', 'a', '"', 'é'];
@@ -37,6 +51,14 @@ pub fn run_one(src: &str) -> String {
 }
 
 fn run_line(line: &str) -> String {
+    run_line_with(line, run_one)
+}
+
+fn ast_line(line: &str) -> String {
+    run_line_with(line, ast_one)
+}
+
+fn run_line_with(line: &str, f: fn(&str) -> String) -> String {
     let mut src = String::new();
     if line != "-" {
         for t in line.split_whitespace() {
@@ -46,7 +68,360 @@ fn run_line(line: &str) -> String {
             }
         }
     }
-    format!("{} = {}", line, run_one(&src))
+    format!("{} = {}", line, f(&src))
+}
+
+// ---------------------------------------------------------------------------
+// `ast` mode: the answer of the parse entry point, printed in full
+// ---------------------------------------------------------------------------
+
+fn hexs(s: &str) -> String {
+    let mut o = String::from("x");
+    for b in s.bytes() {
+        write!(o, "{:02x}", b).unwrap();
+    }
+    o
+}
+
+fn meta(m: &Meta) -> String {
+    let f = match m.file_id {
+        Some(f) => f.to_string(),
+        None => "-".to_string(),
+    };
+    format!("@{}:{}:{}:{}:{}", m.start, m.end, m.location.start, m.location.end, f)
+}
+
+fn op(o: &AssignOp) -> &'static str {
+    match o {
+        AssignOp::AssignVar => "av",
+        AssignOp::AssignSignal => "as",
+        AssignOp::AssignConstraintSignal => "acs",
+    }
+}
+
+fn xtype(t: &VariableType) -> String {
+    match t {
+        VariableType::Var => "var".to_string(),
+        VariableType::Component => "comp".to_string(),
+        VariableType::AnonymousComponent => "anoncomp".to_string(),
+        VariableType::Signal(st, tags) => {
+            let s = match st {
+                SignalType::Input => "in",
+                SignalType::Output => "out",
+                SignalType::Intermediate => "mid",
+            };
+            let mut o = format!("(sig {}", s);
+            for t in tags {
+                o.push(' ');
+                o.push_str(t);
+            }
+            o.push(')');
+            o
+        }
+    }
+}
+
+fn infix(o: &ExpressionInfixOpcode) -> &'static str {
+    use ExpressionInfixOpcode::*;
+    match o {
+        Mul => "Mul",
+        Div => "Div",
+        Add => "Add",
+        Sub => "Sub",
+        Pow => "Pow",
+        IntDiv => "IntDiv",
+        Mod => "Mod",
+        ShiftL => "ShiftL",
+        ShiftR => "ShiftR",
+        LesserEq => "LesserEq",
+        GreaterEq => "GreaterEq",
+        Lesser => "Lesser",
+        Greater => "Greater",
+        Eq => "Eq",
+        NotEq => "NotEq",
+        BoolOr => "BoolOr",
+        BoolAnd => "BoolAnd",
+        BitOr => "BitOr",
+        BitAnd => "BitAnd",
+        BitXor => "BitXor",
+    }
+}
+
+fn prefix(o: &ExpressionPrefixOpcode) -> &'static str {
+    match o {
+        ExpressionPrefixOpcode::Sub => "Neg",
+        ExpressionPrefixOpcode::BoolNot => "BoolNot",
+        ExpressionPrefixOpcode::Complement => "Complement",
+    }
+}
+
+fn exprs(out: &mut String, es: &[Expression]) {
+    for e in es {
+        out.push(' ');
+        expr(out, e);
+    }
+}
+
+fn access(out: &mut String, acc: &[Access]) {
+    out.push_str("(acc");
+    for a in acc {
+        match a {
+            Access::ComponentAccess(n) => {
+                write!(out, " (ca {})", n).unwrap();
+            }
+            Access::ArrayAccess(e) => {
+                out.push_str(" (aa ");
+                expr(out, e);
+                out.push(')');
+            }
+        }
+    }
+    out.push(')');
+}
+
+fn expr(out: &mut String, e: &Expression) {
+    match e {
+        Expression::InfixOp { meta: m, lhe, infix_op, rhe } => {
+            write!(out, "(infix {} {} ", meta(m), infix(infix_op)).unwrap();
+            expr(out, lhe);
+            out.push(' ');
+            expr(out, rhe);
+            out.push(')');
+        }
+        Expression::PrefixOp { meta: m, prefix_op, rhe } => {
+            write!(out, "(prefix {} {} ", meta(m), prefix(prefix_op)).unwrap();
+            expr(out, rhe);
+            out.push(')');
+        }
+        Expression::InlineSwitchOp { meta: m, cond, if_true, if_false } => {
+            write!(out, "(switch {} ", meta(m)).unwrap();
+            expr(out, cond);
+            out.push(' ');
+            expr(out, if_true);
+            out.push(' ');
+            expr(out, if_false);
+            out.push(')');
+        }
+        Expression::ParallelOp { meta: m, rhe } => {
+            write!(out, "(par {} ", meta(m)).unwrap();
+            expr(out, rhe);
+            out.push(')');
+        }
+        Expression::Variable { meta: m, name, access: acc } => {
+            write!(out, "(var {} {} ", meta(m), name).unwrap();
+            access(out, acc);
+            out.push(')');
+        }
+        Expression::Number(m, v) => {
+            write!(out, "(num {} {})", meta(m), v.to_str_radix(16)).unwrap();
+        }
+        Expression::Call { meta: m, id, args } => {
+            write!(out, "(call {} {}", meta(m), id).unwrap();
+            exprs(out, args);
+            out.push(')');
+        }
+        Expression::AnonymousComponent { meta: m, id, is_parallel, params, signals, names } => {
+            write!(out, "(anon {} {} {} (params", meta(m), id, if *is_parallel { 1 } else { 0 }).unwrap();
+            exprs(out, params);
+            out.push_str(") (signals");
+            exprs(out, signals);
+            out.push(')');
+            match names {
+                None => out.push_str(" nonames"),
+                Some(ns) => {
+                    out.push_str(" (names");
+                    for (o, n) in ns {
+                        write!(out, " ({} {})", op(o), n).unwrap();
+                    }
+                    out.push(')');
+                }
+            }
+            out.push(')');
+        }
+        Expression::ArrayInLine { meta: m, values } => {
+            write!(out, "(array {}", meta(m)).unwrap();
+            exprs(out, values);
+            out.push(')');
+        }
+        Expression::Tuple { meta: m, values } => {
+            write!(out, "(tuple {}", meta(m)).unwrap();
+            exprs(out, values);
+            out.push(')');
+        }
+    }
+}
+
+fn stmts(out: &mut String, ss: &[Statement]) {
+    for s in ss {
+        out.push(' ');
+        stmt(out, s);
+    }
+}
+
+fn stmt(out: &mut String, s: &Statement) {
+    match s {
+        Statement::IfThenElse { meta: m, cond, if_case, else_case } => {
+            write!(out, "(if {} ", meta(m)).unwrap();
+            expr(out, cond);
+            out.push(' ');
+            stmt(out, if_case);
+            if let Some(e) = else_case {
+                out.push(' ');
+                stmt(out, e);
+            }
+            out.push(')');
+        }
+        Statement::While { meta: m, cond, stmt: body } => {
+            write!(out, "(while {} ", meta(m)).unwrap();
+            expr(out, cond);
+            out.push(' ');
+            stmt(out, body);
+            out.push(')');
+        }
+        Statement::Return { meta: m, value } => {
+            write!(out, "(return {} ", meta(m)).unwrap();
+            expr(out, value);
+            out.push(')');
+        }
+        Statement::InitializationBlock { meta: m, xtype: t, initializations } => {
+            write!(out, "(initblock {} {}", meta(m), xtype(t)).unwrap();
+            stmts(out, initializations);
+            out.push(')');
+        }
+        Statement::Declaration { meta: m, xtype: t, name, dimensions, is_constant } => {
+            write!(out, "(decl {} {} {} {}", meta(m), xtype(t), name, if *is_constant { 1 } else { 0 }).unwrap();
+            exprs(out, dimensions);
+            out.push(')');
+        }
+        Statement::Substitution { meta: m, var, access: acc, op: o, rhe } => {
+            write!(out, "(sub {} {} {} ", meta(m), var, op(o)).unwrap();
+            access(out, acc);
+            out.push(' ');
+            expr(out, rhe);
+            out.push(')');
+        }
+        Statement::MultiSubstitution { meta: m, lhe, op: o, rhe } => {
+            write!(out, "(msub {} {} ", meta(m), op(o)).unwrap();
+            expr(out, lhe);
+            out.push(' ');
+            expr(out, rhe);
+            out.push(')');
+        }
+        Statement::ConstraintEquality { meta: m, lhe, rhe } => {
+            write!(out, "(ceq {} ", meta(m)).unwrap();
+            expr(out, lhe);
+            out.push(' ');
+            expr(out, rhe);
+            out.push(')');
+        }
+        Statement::LogCall { meta: m, args } => {
+            write!(out, "(log {}", meta(m)).unwrap();
+            for a in args {
+                match a {
+                    LogArgument::LogStr(s) => {
+                        write!(out, " (str {})", hexs(s)).unwrap();
+                    }
+                    LogArgument::LogExp(e) => {
+                        out.push_str(" (exp ");
+                        expr(out, e);
+                        out.push(')');
+                    }
+                }
+            }
+            out.push(')');
+        }
+        Statement::Block { meta: m, stmts: ss } => {
+            write!(out, "(block {}", meta(m)).unwrap();
+            stmts(out, ss);
+            out.push(')');
+        }
+        Statement::Assert { meta: m, arg } => {
+            write!(out, "(assert {} ", meta(m)).unwrap();
+            expr(out, arg);
+            out.push(')');
+        }
+    }
+}
+
+fn definition(out: &mut String, d: &Definition) {
+    match d {
+        Definition::Template { meta: m, name, args, arg_location, body, parallel, is_custom_gate } => {
+            write!(out, "(T {} {} (args", meta(m), name).unwrap();
+            for a in args {
+                write!(out, " {}", a).unwrap();
+            }
+            write!(out, ") (argloc {} {}) par={} custom={} ", arg_location.start, arg_location.end,
+                   if *parallel { 1 } else { 0 }, if *is_custom_gate { 1 } else { 0 }).unwrap();
+            stmt(out, body);
+            out.push(')');
+        }
+        Definition::Function { meta: m, name, args, arg_location, body } => {
+            write!(out, "(F {} {} (args", meta(m), name).unwrap();
+            for a in args {
+                write!(out, " {}", a).unwrap();
+            }
+            write!(out, ") (argloc {} {}) ", arg_location.start, arg_location.end).unwrap();
+            stmt(out, body);
+            out.push(')');
+        }
+    }
+}
+
+fn ast_dump(ast: &AST) -> String {
+    let AST { meta: m, compiler_version, custom_gates, custom_gates_declared, includes, definitions, main_component } = ast;
+    let mut out = format!("(ast {} ", meta(m));
+    match compiler_version {
+        Some((a, b, c)) => write!(out, "(version {} {} {})", a, b, c).unwrap(),
+        None => out.push_str("noversion"),
+    }
+    write!(out, " gates={} declared={} (includes", if *custom_gates { 1 } else { 0 },
+           if *custom_gates_declared { 1 } else { 0 }).unwrap();
+    for Include { meta: im, path } in includes {
+        write!(out, " (inc {} {})", meta(im), hexs(path)).unwrap();
+    }
+    out.push_str(") (defs");
+    for d in definitions {
+        out.push(' ');
+        definition(&mut out, d);
+    }
+    out.push_str(") ");
+    match main_component {
+        None => out.push_str("nomain"),
+        Some((public, call)) => {
+            out.push_str("(main (public");
+            for p in public {
+                write!(out, " {}", p).unwrap();
+            }
+            out.push_str(") ");
+            expr(&mut out, call);
+            out.push(')');
+        }
+    }
+    out.push(')');
+    out
+}
+
+fn report_dump(r: &Report) -> String {
+    let mut o = format!("(report {} {} {} {}", r.category().to_level(), r.id(), r.name(), hexs(r.message()));
+    for l in r.primary() {
+        write!(o, " (p {} {} {} {})", l.range.start, l.range.end, l.file_id, hexs(&l.message)).unwrap();
+    }
+    for l in r.secondary() {
+        write!(o, " (s {} {} {} {})", l.range.start, l.range.end, l.file_id, hexs(&l.message)).unwrap();
+    }
+    for n in r.notes() {
+        write!(o, " (n {})", hexs(n)).unwrap();
+    }
+    o.push(')');
+    o
+}
+
+pub fn ast_one(src: &str) -> String {
+    match verif_harness::guarded(|| parser::verif::parse_source(src, 0)) {
+        None => "panic".to_string(),
+        Some(Ok(ast)) => format!("ast {}", ast_dump(&ast)),
+        Some(Err(report)) => format!("error {}", report_dump(&report)),
+    }
 }
 
 /// 62-bit multiplicative hash, the same on the OCaml side.
@@ -119,6 +494,8 @@ fn main() {
             None => ALPHABET.to_vec(),
         };
         sweep(args[2].parse().unwrap(), args[3].parse().unwrap(), args[4] == "digest", &alphabet);
+    } else if args.len() >= 2 && args[1] == "ast" {
+        verif_harness::each_line(ast_line);
     } else {
         verif_harness::each_line(run_line);
     }
